@@ -24,6 +24,10 @@ class C05(ModelCheck):
             # ultra-long single key (counters far beyond 16 bits); generated inside execute, compared on the final output only
             return {'ultra': {'n': rng.choice([70000, 131073, 140000, 196609, 262147]), 'window': rng.choice([2, 3, 4, 5]),
                               'stride': rng.choice([1, 2, 3])}, 'program': [], 'events': [], 'end': 'complete'}
+        if tier != 'quick' and rng.random() < 0.0003:
+            # ultra-dense: more than 1024 windows of one key open at the same time
+            w, s = rng.choice([(1030, 1), (2100, 2), (1100, 1)])
+            return {'ultra': {'n': w + rng.choice([0, 7, 300]), 'window': w, 'stride': s}, 'program': [], 'events': [], 'end': 'complete'}
         if tier != 'quick' and rng.random() < 0.0002:
             # ultra-wide: hundreds of thousands of groups, so that window slot indices (group index x windows per group) pass 2**16 and 2**20
             return {'ultra': {'groups': rng.choice([70000, 270000]), 'window': rng.choice([5, 6]), 'stride': 1, 'n': 0},
@@ -74,7 +78,8 @@ class C05(ModelCheck):
         if u is not None and u.get('groups') is not None:
             return isinstance(u['groups'], int) and 1 <= u['groups'] <= 300000 and 1 <= u.get('window', 0) <= 8 and u.get('stride', 0) >= 1
         if u is not None:
-            return isinstance(u.get('n'), int) and 0 <= u['n'] <= 300000 and u.get('window', 0) >= 1 and u.get('stride', 0) >= 1 and u['window'] <= 64
+            return (isinstance(u.get('n'), int) and 0 <= u['n'] <= 300000 and u.get('window', 0) >= 1 and u.get('stride', 0) >= 1 and
+                    (u['window'] <= 64 or (u['window'] <= 2200 and u['n'] <= 3000)))
         return ModelCheck.valid(self, case)
 
     def execute(self, case):
@@ -101,7 +106,7 @@ class C05(ModelCheck):
         out.nontrivial = True
         out.shape = ('ultra', n, w, s)
         out.digest = repr((n, w, s, len(got), got[-3:]))
-        out.probes['ultra_long_key>=70000'] += 1
+        out.probes['ultra_long_key>=70000' if n >= 70000 else 'open_windows_of_one_key>1024'] += 1
         return out
 
     def gen_program(self, rng, tier):
